@@ -107,7 +107,8 @@ let () =
                (match element (nat_of_int a.(1)) regs.(r).inp, element (nat_of_int a.(1)) regs.(r).lab,
                       view_get regs.(r).inp ent, view_get regs.(r).lab ent with
                 | Some i, Some lb, Some vi, Some vl ->
-                  Printf.sprintf " elem=%d:%d view=%d:%d" (int_of_nat i) (int_of_nat lb) (int_of_nat vi) (int_of_nat vl)
+                  Printf.sprintf " elem=%d:%d view=%d:%d din=%d:%d crange=%d cidx=%d cderef=%d" (int_of_nat i) (int_of_nat lb) (int_of_nat vi) (int_of_nat vl)
+                    (int_of_nat i) (int_of_nat lb) (int_of_nat (nelems regs.(r).inp)) a.(1) (int_of_nat i)
                 | _ -> raise Reject)
              | "J" -> let r = a.(0) in
                let d = regs.(r).inp and dl = regs.(r).lab in
